@@ -102,6 +102,40 @@ FamTwoPartial(kind) == { TwoPartial(kind, l1, l2, p1, p2) :
                            l1 \in { <<1, 9, 17>>, <<1, 1, 9>> }, l2 \in { <<1, 9, 17>>, <<1, 1, 9>> },
                            p1 \in {1, -1, 0}, p2 \in {1, -1, 0} }
 
+(* the two-centre skeleton as a reaction: both centres invert (broken / formed descriptors), so two stereo-change
+   entries mention the same atoms (each centre is a ligand of the other) and the two halves can be exchanged *)
+TwoChange(l1, l2, p1, p2) ==
+   LET g == Mk("SCRG", (1 :> 6) @@ (5 :> 6) @@ [k \in 2..4 |-> l1[k - 1]] @@ [k \in 6..8 |-> l2[k - 5]], TwoBonds)
+       C(c, t, p) == ("broken" :> D("Tetrahedral", t, p)) @@ ("formed" :> D("Tetrahedral", t, -p)) IN
+   [g EXCEPT !.ach = (1 :> C(1, <<1,5,2,3,4>>, p1)) @@ (5 :> C(5, <<5,1,6,7,8>>, p2))]
+FamTwoChange == { TwoChange(l1, l2, p1, p2) : l1 \in { <<1, 9, 17>>, <<1, 1, 9>> }, l2 \in { <<1, 9, 17>>, <<1, 1, 9>> },
+                                              p1 \in {1, -1}, p2 \in {1, -1} }
+
+(* an allyl-like chain 1-2-3 with a planar-bond stereo change on BOTH bonds: the two entries share the leaf atom 6
+   (the substituent of the middle atom), and exchanging the two ends is an automorphism when the ends look alike *)
+AllylBonds == [b \in { {1,2}, {2,3}, {1,4}, {1,5}, {2,6}, {3,7}, {3,8} } |-> Bd("none")]
+Allyl(le, d12, d23, c12, c23) ==
+   [Mk("SCRG", (1 :> 6) @@ (2 :> 6) @@ (3 :> 6) @@ (4 :> le[1]) @@ (5 :> le[2]) @@ (6 :> 1) @@ (7 :> le[3]) @@ (8 :> le[4]), AllylBonds)
+      EXCEPT !.bch = ({1,2} :> (c12 :> d12)) @@ ({2,3} :> (c23 :> d23))]
+FamAllyl == { Allyl(le, d12, d23, c12, c23) :
+                 le \in { <<1, 9, 1, 9>>, <<1, 9, 9, 1>>, <<1, 1, 1, 1>> },
+                 d12 \in { D("PlanarBond", <<4,5,1,2,6,3>>, 0), D("PlanarBond", <<5,4,1,2,6,3>>, 0) },
+                 d23 \in { D("PlanarBond", <<1,6,2,3,7,8>>, 0), D("PlanarBond", <<1,6,2,3,8,7>>, 0) },
+                 c12 \in {"broken", "formed"}, c23 \in {"broken", "formed"} }
+
+(* electrocyclic ring closure butadiene -> cyclobutene: three bond stereo changes and two atom stereo changes whose
+   descriptors overlap in the hydrogens of the inner carbons; two-fold symmetry (1<->4, 2<->3) *)
+ElcycBonds == [b \in { {1,2}, {2,3}, {3,4}, {1,5}, {1,6}, {2,7}, {3,8}, {4,9}, {4,10} } |-> Bd("none")] @@ ({1,4} :> Bd("formed"))
+Elcyc(p1, p4, d23) ==
+   [Mk("SCRG", [a \in 1..10 |-> IF a <= 4 THEN 6 ELSE 1], ElcycBonds)
+      EXCEPT !.bch = ({1,2} :> ("broken" :> D("PlanarBond", <<5,6,1,2,7,3>>, 0))) @@
+                     ({3,4} :> ("broken" :> D("PlanarBond", <<2,8,3,4,9,10>>, 0))) @@
+                     ({2,3} :> ("formed" :> d23)),
+             !.ach = (1 :> ("formed" :> D("Tetrahedral", <<1,2,4,5,6>>, p1))) @@
+                     (4 :> ("formed" :> D("Tetrahedral", <<4,3,1,9,10>>, p4)))]
+FamElcyc == { Elcyc(p1, p4, d23) : p1 \in {1, -1}, p4 \in {1, -1},
+                                   d23 \in { D("PlanarBond", <<1,7,2,3,8,4>>, 0), D("PlanarBond", <<1,7,2,3,4,8>>, 0) } }
+
 TBPStar(kind, le, d) ==
    [Mk(kind, (1 :> 15) @@ [k \in 2..6 |-> le[k - 1]], StarBonds(6)) EXCEPT !.ast = (1 :> d)]
 TBPDescr == { D("TrigonalBipyramidal", <<1,2,3,4,5,6>>, 1), D("TrigonalBipyramidal", <<1,2,3,4,5,6>>, -1),
@@ -213,6 +247,9 @@ Family == CASE Fam = "alltet" -> AllPlace("SMG", "Tetrahedral", 6, <<1, 9, 17, 3
             [] Fam = "ethene" -> FamEthene("SMG")
             [] Fam = "two"   -> FamTwo("SMG")
             [] Fam = "twop"  -> FamTwoPartial("SMG")
+            [] Fam = "twoc"  -> FamTwoChange
+            [] Fam = "allylr" -> FamAllyl
+            [] Fam = "elcyc" -> FamElcyc
             [] Fam = "tbp"   -> FamTBP("SMG")
             [] Fam = "oct"   -> FamOct("SMG")
             [] Fam = "sn2"   -> FamSN2
